@@ -174,6 +174,21 @@ def run_pure(ck):
             if not (k < 64 and base <= i < base + size):
                 bad = (l, o)
                 break
+    if bad is None:
+        ibase, isize = {}, {}
+        for l, o in zip(lines, impl):
+            w = l.split()
+            if w[0] == "base":
+                ibase[int(w[1])] = int(o)
+            elif w[0] == "size":
+                isize[int(w[1])] = int(o)
+        for l, o in zip(lines, impl):
+            w = l.split()
+            if w[0] == "idx":
+                i, k = int(w[1]), int(o)
+                if k in ibase and not (ibase[k] <= i < ibase[k] + isize[k]):
+                    bad = (l, "segment %d = [%d, %d)" % (k, ibase[k], ibase[k] + isize[k]))
+                    break
     ck.oblige("monitor:index-in-its-segment", "correspondence", bad is None, "" if bad is None else "index %s mapped to segment %s" % bad)
     if bad is not None:
         ck.counterexample("segment-arith:" + bad[0].replace(" ", "="), "segment_index_of puts index outside its segment: %s -> %s" % bad,
@@ -389,11 +404,94 @@ def run_shim(ck):
                           {"engine": "E-SHIM", "harness": "harness/c11/shim.cpp", "scenario": sc, "schedule": r["sched"], "monitor": r["mon"]})
 
 
+FAULT_CORPUS = [
+    [[("push", 0)] * 10 + [("by", 100)]],                                  # multi-segment grow_by after the first block
+    [[("by", 40)], [("by", 40)]],
+    [[("push", 0), ("push", 0), ("by", 17)], [("to", 30)], [("push", 0), ("by", 9)]],
+    [[("by", 3), ("by", 200)], [("push", 0), ("push", 0), ("push", 0)]],
+]
+
+
+def run_faults(ck):
+    """Fault schedules: the k-th element copy-construction throws, or the k-th segment allocation throws, under
+    controlled interleavings.  Property clauses checked: the vector remains destructible, elements of completed calls
+    keep their values, later accesses either work or throw, unallocated memory is never touched (a wild access is a
+    crash, which verif::report_crashes turns into an observation with the schedule)."""
+    exe = cxx_build("C11", "shim", ["harness/c11/shim.cpp", common.SHIM_SRC, STUBS], flags=["-O1", "-g", "-fno-access-control"] + common.SHIM_FLAGS)
+    quick = ck.tier == "quick"
+    bad, fired, runs = [], 0, 0
+    for si, sc in enumerate(FAULT_CORPUS):
+        text = "".join("prog " + " ".join("%s %d" % (k, a if k != "push" else 0) for k, a in p) + "\n" for p in sc)
+        total = sum((1 if k == "push" else a) for p in sc for k, a in p)
+        ks = sorted(set([1, 2, 3, 5, 8, 9, 11, 13, 16, 17, 18, 31, 33, 34, total - 1, total] + ([ck.rng.randrange(1, total + 1) for _ in range(6)] if quick else list(range(1, min(total, 260) + 1)))))
+        plans = [("VERIF_FAULT_CTOR", k) for k in ks if 1 <= k <= total] + [("VERIF_FAULT_ALLOC", k) for k in range(1, 9)]
+        for var, k in plans:
+            env = dict(os.environ); env[var] = str(k)
+            rc, out, err = sh([exe, "rand", str(ck.seed * 100 + si), "3" if quick else "12"], input=text, timeout=300, env=env)
+            runs += 1
+            fired += out.count("faults_fired 1")
+            ck.count(1, ("fault", si, var, "fired" if "faults_fired 1" in out else "nofire", rc))
+            crash = "CRASH" in out or rc not in (0, 1, 3)
+            viol = [l for l in out.split("\n") if l.startswith("mon VIOLATION") or l.startswith("mon DEADLOCK")]
+            if crash or viol:
+                sched = [l for l in out.split("\n") if l.startswith("sched")]
+                bad.append({"scenario": sc, "fault": [var, k], "what": ((out[out.find("CRASH"):][:40].replace("\n", " ") if "CRASH" in out else "CRASH rc=%d" % rc) if crash else viol[0]),
+                            "schedule": sched[-1].split()[1:] if sched else []})
+    probes = run_probes(ck, exe)
+    bad = probes + bad
+    ck.extra["fault_runs"] = {"plans_run": runs, "faults_fired": fired, "targeted_probes_reproduced": len(probes)}
+    keyed, seen = [], set()
+    for b in bad:
+        kind = "crash" if b["what"].startswith("CRASH") else ("deadlock" if "DEADLOCK" in b["what"] else "monitor")
+        if b["fault"][0] == "VERIF_FAULT_CTOR":
+            key = "fault:ctor-throw:%s" % kind
+        else:
+            key = "fault:alloc-throw:%s:%s" % ("first-block" if b["fault"][1] == 1 else "segment", kind)
+        if key not in seen:
+            seen.add(key)
+            keyed.append((key, b))
+    ck.oblige("monitor:fault schedules (k-th element copy / k-th segment allocation throws): destructible, completed elements intact, "
+              "later accesses work or throw (never hang), no wild access", "correspondence", not bad, "" if not bad else str(bad[0])[:300],
+              cex_keys=[k for k, _ in keyed])
+    for key, b in keyed:
+        ck.counterexample(key, "scenario %s with %s=%d: %s" % (b["scenario"], b["fault"][0], b["fault"][1], b["what"][:80]),
+                          {"engine": "E-SHIM", "harness": "harness/c11/shim.cpp", "scenario": b["scenario"], "schedule": b["schedule"], "env": {b["fault"][0]: str(b["fault"][1])}})
+
+
+# Known findings in the failure clauses (KNOWN_FINDINGS.txt), probed on every run with targeted scenarios so that they are
+# demonstrated deterministically rather than by luck of the random fault plans:
+#  F8 fault:alloc-throw:first-block:deadlock — first-block allocation fails in a thread that still sees the embedded table while
+#     my_first_block > 3: only embedded slots 1..2 get the failure tag; a grower in segments 3..first_block-1 waits forever.
+#  F9 fault:ctor-throw:deadlock / fault:alloc-throw:segment:deadlock — a grower that leaves by exception never allocates (or tags)
+#     the later segments whose first index lies in its claimed range; growers waiting for those segments wait forever.
+PROBES = [
+    ("VERIF_FAULT_ALLOC", 1, [[("push", 0), ("push", 0)], [("to", 30)], [("push", 0)]]),
+    ("VERIF_FAULT_CTOR", 2, [[("by", 3), ("by", 200)], [("push", 0), ("push", 0), ("push", 0)]]),
+    ("VERIF_FAULT_ALLOC", 2, [[("push", 0), ("push", 0), ("by", 17)], [("to", 30)], [("push", 0), ("by", 9)]]),
+]
+
+
+def run_probes(ck, exe):
+    found = []
+    for var, k, sc in PROBES:
+        text = "".join("prog " + " ".join("%s %d" % (kk, a if kk != "push" else 0) for kk, a in p) + "\n" for p in sc)
+        env = dict(os.environ); env[var] = str(k)
+        for seed in range(0, 40):
+            rc, out, err = sh([exe, "rand", str(seed), "5"], input=text, timeout=120, env=env)
+            if "mon VIOLATION DEADLOCK" in out or "CRASH" in out or rc not in (0, 1, 3):
+                sched = [l for l in out.split("\n") if l.startswith("sched")]
+                what = "mon VIOLATION DEADLOCK (a grower waits forever for a segment nobody will allocate or tag)" if "DEADLOCK" in out else (out[out.find("CRASH"):][:40].replace("\n", " ") if "CRASH" in out else "CRASH rc=%d" % rc)
+                found.append({"scenario": sc, "fault": [var, k], "what": what, "schedule": sched[-1].split()[1:] if sched else []})
+                break
+    return found
+
+
 def run(ck):
     ck.rule = ("E-PURE: boundary-biased 64-bit indices (all 2^k, 2^k±1,±2; random per bit-length; thorough adds every index < 2^20), every k<64 for "
                "segment_base/size, element addresses of real vectors for several first-block sizes; E-REAL: random 2-4 thread grower scenarios and "
                "grow_to_at_least (old,new) pairs incl. >= 2^31 (thorough: >= 2^32). distinct = distinct (operation, outcome class) pairs")
     ck.assumptions += [
+        "exception paths (throwing element constructor / allocator) are covered by fault schedules with implementation-side monitors, not by theorems",
         "model covers: index arithmetic, element address map, the my_size word (fetch_add / CAS-max) and the grow_to_at_least guard (generated from source)",
         "not modelled (checked only by the implementation monitors on explored runs): segment allocation election and waits in create_segment, "
         "embedded->long table switch, exception paths (failure tagging / zero-fill)",
@@ -408,6 +506,7 @@ def run(ck):
     run_gtal(ck)
     run_grow(ck)
     run_shim(ck)
+    run_faults(ck)
 
 
 def replay(ck, obj):
@@ -415,7 +514,8 @@ def replay(ck, obj):
     if r.get("engine") == "E-SHIM":
         exe = cxx_build("C11", "shim", ["harness/c11/shim.cpp", common.SHIM_SRC, STUBS], flags=["-O1", "-g", "-fno-access-control"] + common.SHIM_FLAGS)
         text = "".join("prog " + " ".join("%s %d" % (k, a if k != "push" else 0) for k, a in p) + "\n" for p in r["scenario"])
-        rc, out, err = sh([exe, "replay", ",".join(r["schedule"])], input=text, timeout=300)
+        env = dict(os.environ); env.update(r.get("env", {}))
+        rc, out, err = sh([exe, "replay", ",".join(r["schedule"])], input=text, timeout=300, env=env)
         print(out[-2000:])
         return 0 if rc == 0 else 1
     name = os.path.basename(r["harness"])[:-4]
